@@ -8,8 +8,8 @@ package message
 // conditions and also run by replay tests). Nothing here is compiled into a
 // normal build.
 
-//@ property C04 roots readLPBytes, (*header).decode, (*PubackMessage).Decode, (*ConnackMessage).Decode, (*DisconnectMessage).Decode, (*SubackMessage).Decode, (*PublishMessage).Decode, (*SubscribeMessage).Decode
-//@ property C03 roots (*header).encode, (*header).msglen, writeLPBytes, (*header).SetRemainingLength, (*header).PacketID, (*header).SetPacketID, (*header).SetType, (*PubackMessage).Len, (*PubackMessage).Encode, (*PubackMessage).Decode, (*PubackMessage).msglen, (*ConnackMessage).Len, (*ConnackMessage).Encode, (*ConnackMessage).Decode, (*DisconnectMessage).Decode, (*SubackMessage).Decode, (*DisconnectMessage).Encode, (*header).Len, (*SubackMessage).Len, (*SubackMessage).Encode, (*SubackMessage).Decode, (*SubackMessage).AddReturnCodes, (*SubackMessage).AddReturnCode, (*PublishMessage).Len, (*PublishMessage).Encode, (*PublishMessage).Decode, (*PublishMessage).QoS, (*PublishMessage).SetQoS, (*PublishMessage).Retain, (*PublishMessage).SetRetain, (*PublishMessage).Dup, (*PublishMessage).SetDup, (*PublishMessage).SetTopic, (*PublishMessage).SetPayload, (*PublishMessage).Topic, (*PublishMessage).Payload, (*PublishMessage).msglen, (*SubscribeMessage).msglen, (*SubscribeMessage).Len, (*SubscribeMessage).Encode, (*SubscribeMessage).Decode
+//@ property C04 roots readLPBytes, (*header).decode, (*PubackMessage).Decode, (*ConnackMessage).Decode, (*DisconnectMessage).Decode, (*SubackMessage).Decode, (*PublishMessage).Decode, (*SubscribeMessage).Decode, (*UnsubscribeMessage).Decode
+//@ property C03 roots (*header).encode, (*header).msglen, writeLPBytes, (*header).SetRemainingLength, (*header).PacketID, (*header).SetPacketID, (*header).SetType, (*PubackMessage).Len, (*PubackMessage).Encode, (*PubackMessage).Decode, (*PubackMessage).msglen, (*ConnackMessage).Len, (*ConnackMessage).Encode, (*ConnackMessage).Decode, (*DisconnectMessage).Decode, (*SubackMessage).Decode, (*DisconnectMessage).Encode, (*header).Len, (*SubackMessage).Len, (*SubackMessage).Encode, (*SubackMessage).Decode, (*SubackMessage).AddReturnCodes, (*SubackMessage).AddReturnCode, (*PublishMessage).Len, (*PublishMessage).Encode, (*PublishMessage).Decode, (*PublishMessage).QoS, (*PublishMessage).SetQoS, (*PublishMessage).Retain, (*PublishMessage).SetRetain, (*PublishMessage).Dup, (*PublishMessage).SetDup, (*PublishMessage).SetTopic, (*PublishMessage).SetPayload, (*PublishMessage).Topic, (*PublishMessage).Payload, (*PublishMessage).msglen, (*SubscribeMessage).msglen, (*SubscribeMessage).Len, (*SubscribeMessage).Encode, (*SubscribeMessage).Decode, (*UnsubscribeMessage).msglen, (*UnsubscribeMessage).Len, (*UnsubscribeMessage).Encode, (*UnsubscribeMessage).Decode
 
 // ---------------------------------------------------------------- spec functions
 
@@ -757,3 +757,80 @@ func vspecPublishOK(src []byte) bool {
 //@   ensures[C03:clean] err == nil ==> !m.dirty && sameslice(m.dbuf, src[:n])
 //@   ensures[C04:accept] old(vspecHdrOK(src, Type(m.mtypeflags[0]>>4))) && old(vdefSubChainOK(src)) ==> err == nil
 //@   modifies m.remlen, m.mtypeflags, m.dbuf, m.dirty, m.packetID, m.topics, m.qos
+
+// ---------------------------------------------------------------- UNSUBSCRIBE (MQTT 3.10): as SUBSCRIBE without QoS bytes
+
+//@ func (*UnsubscribeMessage).msglen
+//@   requires len(m.topics) <= 30000 && forall(0, len(m.topics), func(j int) bool { return len(m.topics[j]) <= 65535 })
+//@   loop 1 invariant rangeindex < len(m.topics)
+//@   loop 1 invariant 2 <= total && total <= 2+(rangeindex+1)*65537
+//@   loop 1 invariant total+sumlen(m.topics, rangeindex+1, 2) == 2+sumlen(m.topics, 0, 2)
+//@   loop 1 decreases len(m.topics) - rangeindex
+//@   ensures result == 2+sumlen(m.topics, 0, 2) && 2 <= result && result <= 2+len(m.topics)*65537
+
+//@ func (*UnsubscribeMessage).Len
+//@   requires len(m.topics) <= 30000 && forall(0, len(m.topics), func(j int) bool { return len(m.topics[j]) <= 65535 })
+//@   ensures[C03:len] !old(m.dirty) ==> result == len(m.dbuf) && m.remlen == old(m.remlen) && !m.dirty
+//@   ensures[C03:len] old(m.dirty) && 2+sumlen(m.topics, 0, 2) <= 268435455 ==> result == 1+vspecVarintLen(2+sumlen(m.topics, 0, 2))+2+sumlen(m.topics, 0, 2) && int(m.remlen) == 2+sumlen(m.topics, 0, 2) && m.dirty
+//@   modifies m.remlen, m.dirty
+
+//@ func (*UnsubscribeMessage).Encode
+//@   results n, err
+//@   ghostout gh_off, gh_nxt
+//@   requires len(m.mtypeflags) == 1
+//@   requires len(m.packetID) == 0 || len(m.packetID) == 2
+//@   requires arr(dst) != arr(m.packetID) || len(m.packetID) != 2
+//@   requires arr(dst) != arr(m.mtypeflags) && disjoint(m.packetID, m.mtypeflags)
+//@   requires len(m.topics) <= 30000 && forall(0, len(m.topics), func(j int) bool { return len(m.topics[j]) <= 65535 && arr(m.topics[j]) != arr(dst) && disjoint(m.packetID, m.topics[j]) })
+//@   ghost gh_off[rangeindex+1] = total at loop 1 entry
+//@   ghost gh_nxt[rangeindex] = total at loop 1 latch
+//@   ghost gh_off[rangeindex+1] = total at loop 1 latch
+//@   loop 1 invariant rangeindex < len(m.topics) && 0 <= total && total <= len(dst)
+//@   loop 1 invariant[len] total+sumlen(m.topics, rangeindex+1, 2) == 1+vspecVarintLen(int(m.remlen))+int(m.remlen) && int(m.remlen) == 2+sumlen(m.topics, 0, 2) && 1+vspecVarintLen(int(m.remlen))+int(m.remlen) <= len(dst)
+//@   loop 1 invariant[off] gh_off[0] == 1+vspecVarintLen(int(m.remlen))+2 && gh_off[rangeindex+1] == total && gh_off[0] <= total
+//@   loop 1 invariant[hdr] dst[0] == m.mtypeflags[0] && forall(0, vspecVarintLen(int(m.remlen)), func(k int) bool { return int(dst[1+k]) == vspecVarintByte(int(m.remlen), k) }) && len(m.packetID) == 2 && vspecBE16(dst, 1+vspecVarintLen(int(m.remlen))) == vspecPacketID(m.packetID) && vspecPacketID(m.packetID) != 0
+//@   loop 1 invariant[ext] forall(0, rangeindex+1, func(j int) bool { return gh_nxt[j] == gh_off[j]+2+len(m.topics[j]) && gh_off[0] <= gh_off[j] && gh_nxt[j] <= total && gh_off[j+1] == gh_nxt[j] }, "gh_nxt")
+//@   loop 1 invariant[be16] forall(0, rangeindex+1, func(j int) bool { return gh_nxt[j] <= total && vspecBE16(dst, gh_off[j]) == len(m.topics[j]) }, "gh_nxt")
+//@   loop 1 invariant[txt] forall(0, rangeindex+1, func(j int) bool { return gh_nxt[j] <= total && eqbytes(dst[gh_off[j]+2:gh_off[j]+2+len(m.topics[j])], m.topics[j]) }, "gh_nxt")
+//@   loop 1 invariant[frame] unchangedoutside(dst, 0, total) && m.dirty == old(m.dirty)
+//@   loop 1 decreases len(m.topics) - rangeindex
+//@   ensures[C03:len] err == nil && !old(m.dirty) ==> n == len(old(m.dbuf)) && n <= len(dst) && eqold(dst[:n], m.dbuf)
+//@   ensures[C03:len] err == nil && old(m.dirty) ==> n == 1+vspecVarintLen(2+sumlen(m.topics, 0, 2))+2+sumlen(m.topics, 0, 2) && n <= len(dst) && int(m.remlen) == 2+sumlen(m.topics, 0, 2)
+//@   ensures[C03:wire] err == nil && old(m.dirty) ==> dst[0] == m.mtypeflags[0] && forall(0, vspecVarintLen(int(m.remlen)), func(k int) bool { return int(dst[1+k]) == vspecVarintByte(int(m.remlen), k) })
+//@        && vspecBE16(dst, 1+vspecVarintLen(int(m.remlen))) == vspecPacketID(m.packetID)
+//@        && gh_off[0] == 1+vspecVarintLen(int(m.remlen))+2 && gh_off[len(m.topics)] == n
+//@        && forall(0, len(m.topics), func(j int) bool { return gh_nxt[j] == gh_off[j]+2+len(m.topics[j]) && gh_off[j+1] == gh_nxt[j] }, "gh_nxt")
+//@        && forall(0, len(m.topics), func(j int) bool { return gh_nxt[j] <= n && vspecBE16(dst, gh_off[j]) == len(m.topics[j]) }, "gh_nxt")
+//@        && forall(0, len(m.topics), func(j int) bool { return gh_nxt[j] <= n && eqbytes(dst[gh_off[j]+2:gh_off[j]+2+len(m.topics[j])], m.topics[j]) }, "gh_nxt")
+//@   ensures[C03,C12:pid] err == nil && old(m.dirty) ==> vspecPacketID(m.packetID) != 0
+//@   ensures[C03:keepid] old(vspecPacketID(m.packetID)) != 0 ==> vspecPacketID(m.packetID) == old(vspecPacketID(m.packetID))
+//@   modifies elems(dst, 0, n), m.remlen, m.dirty, m.packetID, elems(m.packetID), gPacketID
+
+//@ define vdefUnsubChainOK(src)
+//@   is gh_in[-1] >= 1 && gh_in[0] == vspecH(src)+2 && gh_in[gh_in[-1]] == vspecH(src)+vspecVarintVal(src, 1) && vspecVarintVal(src, 1) > 2
+//@      && forall(0, gh_in[-1], func(j int) bool { return gh_inx[j] == gh_in[j]+2+vspecBE16(src, gh_in[j]) && gh_in[j+1] == gh_inx[j] && gh_in[j]+2 <= vspecH(src)+vspecVarintVal(src, 1) && gh_inx[j] <= vspecH(src)+vspecVarintVal(src, 1) }, "gh_inx")
+
+//@ func (*UnsubscribeMessage).Decode
+//@   results n, err
+//@   strictslice
+//@   ghostout gh_off, gh_nxt
+//@   requires len(m.mtypeflags) == 1
+//@   requires len(m.topics) == 0 && cap(m.topics) == 0
+//@   ghost gh_off[len(m.topics)] = total at loop 1 entry
+//@   ghost gh_nxt[len(m.topics)-1] = total at loop 1 latch
+//@   ghost gh_off[len(m.topics)] = total at loop 1 latch
+//@   loop 1 invariant[cnt] total+remlen == vspecH(src)+int(m.remlen) && remlen >= 0 && vspecH(src)+2 <= total && gh_off[0] == vspecH(src)+2 && gh_off[len(m.topics)] == total
+//@   loop 1 invariant[sep] preservedarrays(src) && preservedarrays(m.topics) && (cap(m.topics) == 0 || fresh(arr(m.topics)))
+//@   loop 1 invariant[ext] forall(0, len(m.topics), func(j int) bool { return gh_nxt[j] == gh_off[j]+2+len(m.topics[j]) && gh_off[j+1] == gh_nxt[j] && vspecH(src)+2 <= gh_off[j] && gh_nxt[j] <= total }, "gh_nxt")
+//@   loop 1 invariant[fld] forall(0, len(m.topics), func(j int) bool { return gh_nxt[j] <= total && sameslice(m.topics[j], src[gh_off[j]+2:gh_nxt[j]]) && vspecBE16(src, gh_off[j]) == len(m.topics[j]) }, "gh_nxt")
+//@   loop 1 invariant[acc] old(vdefUnsubChainOK(src)) ==> len(m.topics) <= gh_in[-1] && total == gh_in[len(m.topics)] && (remlen > 0 ==> gh_inx[len(m.topics)] >= 0)
+//@   loop 1 decreases remlen
+//@   ensures[C04:count] 0 <= n && n <= len(src)
+//@   ensures[C04:inside] err == nil ==> within(m.mtypeflags, src, n) && within(m.dbuf, src, n) && within(m.packetID, src, n) && forall(0, len(m.topics), func(j int) bool { return gh_nxt[j] <= n && within(m.topics[j], src, n) }, "gh_nxt")
+//@   ensures[C03:fields] err == nil ==> n == vspecH(src)+vspecVarintVal(src, 1) && int(m.remlen) == vspecVarintVal(src, 1) && sameslice(m.mtypeflags, src[0:1]) && sameslice(m.packetID, src[vspecH(src):vspecH(src)+2])
+//@        && len(m.topics) >= 1 && gh_off[0] == vspecH(src)+2 && gh_off[len(m.topics)] == n
+//@        && forall(0, len(m.topics), func(j int) bool { return gh_nxt[j] == gh_off[j]+2+len(m.topics[j]) && gh_off[j+1] == gh_nxt[j] }, "gh_nxt")
+//@        && forall(0, len(m.topics), func(j int) bool { return gh_nxt[j] <= n && sameslice(m.topics[j], src[gh_off[j]+2:gh_nxt[j]]) && vspecBE16(src, gh_off[j]) == len(m.topics[j]) }, "gh_nxt")
+//@   ensures[C03:clean] err == nil ==> !m.dirty && sameslice(m.dbuf, src[:n])
+//@   ensures[C04:accept] old(vspecHdrOK(src, Type(m.mtypeflags[0]>>4))) && old(vdefUnsubChainOK(src)) ==> err == nil
+//@   modifies m.remlen, m.mtypeflags, m.dbuf, m.dirty, m.packetID, m.topics
